@@ -123,6 +123,9 @@ fn round(seed_rng: &mut Rng, round_no: u64) -> Value {
             for (k, op) in ops.iter().enumerate() {
                 let item = (s as i64 + 1) * 100 + k as i64;
                 set_current_item(item);
+                if *op <= 5 {
+                    rec.log(json!({"ev": "SendCall", "item": item, "kind": match op { 0 | 1 | 2 => "send", 3 => "try", _ => "block" }}));
+                }
                 for _ in 0..trng.below(3) {
                     std::thread::yield_now();
                 }
@@ -188,12 +191,23 @@ fn round(seed_rng: &mut Rng, round_no: u64) -> Value {
             rec.log(json!({"ev": "CallerPanicked"}));
         }
     }
-    // final flush, then drop the sender: the worker must drain and terminate
-    set_current_watcher("final", false);
-    let r = emit_batcher::sync::blocking_flush(&*sender, Duration::from_secs(10));
-    rec.log(json!({"ev": "FlushRet", "w": "final", "ret": r}));
-    if !r {
-        what.push("final blocking_flush timed out after 10 s".to_string());
+    // either a final flush, or a last send immediately followed by the drop of the sender: in both
+    // cases the worker must deliver what is queued, fire what is registered and terminate
+    let mut r = true;
+    if seed_rng.below(2) == 0 {
+        set_current_watcher("final", false);
+        r = emit_batcher::sync::blocking_flush(&*sender, Duration::from_secs(10));
+        rec.log(json!({"ev": "FlushRet", "w": "final", "ret": r}));
+        if !r {
+            what.push("final blocking_flush timed out after 10 s".to_string());
+        }
+    } else {
+        for _ in 0..seed_rng.below(200) {
+            std::hint::spin_loop();
+        }
+        set_current_item(9000);
+        rec.log(json!({"ev": "SendCall", "item": 9000, "kind": "send"}));
+        sender.send(9000);
     }
     drop(sender);
     // join with a watchdog
@@ -240,18 +254,23 @@ fn contexts(out: &mut impl Write) {
                 })
                 .unwrap();
                 set_current_item(1);
+                rec.log(json!({"ev": "SendCall", "item": 1, "kind": "send"}));
                 sender.send(1);
                 // make sure the batch is in flight when the receiver is stalled
                 std::thread::sleep(Duration::from_millis(5));
                 if op == "send" && receiver_state == "stalled" {
                     // fill the queue so the blocking send really has to wait
                     set_current_item(3);
+                    rec.log(json!({"ev": "SendCall", "item": 3, "kind": "send"}));
                     sender.send(3);
                 }
                 let timeout = Duration::from_millis(if receiver_state == "live" { 2000 } else { 50 });
                 let (s2, rec3) = (sender.clone(), rec.clone());
                 let call = move || {
                     set_current_item(2);
+                    if op == "send" {
+                        rec3.log(json!({"ev": "SendCall", "item": 2, "kind": "block"}));
+                    }
                     set_current_watcher("ctx", false);
                     if op == "flush" {
                         let r = emit_batcher::tokio::blocking_flush(&*s2, timeout);
